@@ -73,6 +73,8 @@ fn admissible(e: &FloatEnv) -> bool {
 const F64_GRID: u64 = 2048 * 8;
 /// d x 10^k, k in -400..=400, 6 digit strings
 const DEC_GRID: u64 = 801 * 6;
+/// 53 trailing-zero counts x 141 unbiased exponents (-70..=70)
+const TZ_GRID: u64 = 53 * 141;
 const F32_SWEEP_RUNS_THOROUGH: u64 = 65536; // x 65536 patterns = all 2^32
 const F32_SWEEP_RUNS_QUICK: u64 = 1024; // x 1024 patterns, stride 4099
 
@@ -569,6 +571,7 @@ impl Property for C14 {
     fn runs(&self, tier: Tier) -> u64 {
         f32_sweep_runs(tier)
             + F64_GRID
+            + TZ_GRID
             + DEC_GRID
             + match tier {
                 Tier::Quick => 150_000,
@@ -605,6 +608,16 @@ impl Property for C14 {
             return Trace { item: Item::F64 { bits: (sign << 63) | (ef << 52) | mant }, env: EnvSel::All };
         }
         let r = r - F64_GRID;
+        if r < TZ_GRID {
+            // mantissas with exactly tz trailing zero bits x binary exponents around the integer/fraction boundary
+            let tz = r % 53;
+            let e = (r / 53) as i64 - 70; // value = mantissa * 2^(e-52), unbiased exponent e in -70..=70
+            let full = (1u64 << 52) - 1;
+            let mant = if tz >= 52 { 0 } else { ((rng.next_u64() & full) | (1u64 << tz)) & !((1u64 << tz) - 1) };
+            let ef = (1023 + e) as u64;
+            return Trace { item: Item::F64 { bits: ((r % 2) << 63) | (ef << 52) | mant }, env: EnvSel::All };
+        }
+        let r = r - TZ_GRID;
         if r < DEC_GRID {
             let k = (r / 6) as i64 - 400;
             let digits = ["1", "5", "9", "17", "123456789", "99999999999999999999999999"][(r % 6) as usize];
